@@ -336,9 +336,37 @@ impl<'a> Judge<'a> {
                 let others: Vec<&String> = cp.iter().filter(|p| !is_sticky(p)).collect();
                 let b_others: Vec<&String> = bp.iter().filter(|p| !is_sticky(p)).collect();
                 self.rep.obs("cookie_pairs_compared", others.len() as u64);
+                // what kind of pair is it, seen from the sticky cookie name (cookie names are
+                // case-sensitive: only the exactly named cookie is sozu's)
+                let class_of = |p: &str| -> &'static str {
+                    let name = p.split('=').next().unwrap_or("");
+                    if name.eq_ignore_ascii_case(&cfg.sticky_name) {
+                        "case_variant_of_sticky_name"
+                    } else if name.to_ascii_lowercase().contains(&cfg.sticky_name.to_ascii_lowercase()) || cfg.sticky_name.to_ascii_lowercase().contains(&name.to_ascii_lowercase()) && name.len() + 1 >= cfg.sticky_name.len() {
+                        "lookalike_of_sticky_name"
+                    } else if p.ends_with('=') {
+                        "empty_value"
+                    } else {
+                        "other"
+                    }
+                };
+                for p in &others {
+                    match class_of(p) {
+                        "case_variant_of_sticky_name" => self.rep.obs("cookie_pairs_compared/case_variant_of_sticky_name", 1),
+                        "lookalike_of_sticky_name" => self.rep.obs("cookie_pairs_compared/lookalike_of_sticky_name", 1),
+                        "empty_value" => self.rep.obs("cookie_pairs_compared/empty_value", 1),
+                        _ => {}
+                    }
+                }
+                if cc.len() > 1 {
+                    self.rep.obs(if spec.front.is_h2() { "cookie_cases/several_cookie_fields_h2" } else { "cookie_cases/several_cookie_fields_h1" }, 1);
+                }
                 if others != b_others {
                     let kind = if b_others.len() < others.len() { "cookie_lost" } else if b_others.len() > others.len() { "cookie_added" } else { "cookie_altered_or_reordered" };
-                    self.violate(&format!("headers/{kind}/{pair}"), format!("cookie pairs other than the sticky cookie: client sent {others:?}, backend received {b_others:?}"), Value::Null);
+                    // class of the first client pair that did not arrive as sent (in order)
+                    let mut it = b_others.iter();
+                    let first_bad = others.iter().find(|p| !it.any(|b| b == *p)).map(|p| class_of(p)).unwrap_or("other");
+                    self.violate(&format!("headers/{kind}/{pair}/{first_bad}"), format!("every cookie pair except the exactly named sticky cookie {:?} must reach the backend unchanged and in order: client sent {others:?}, backend received {b_others:?}", cfg.sticky_name), json!({"class": first_bad}));
                 }
                 let b_sticky = bp.iter().filter(|p| is_sticky(p)).count();
                 if sent_sticky > 0 {
